@@ -4,7 +4,9 @@ EXTENDS ClusterMutex
 
 MembersAB == {"m1", "m2"}
 
-(* (A) one handle object per member; two goroutines of m1 share h1, one goroutine of m2 uses h2 *)
+(* (A) one handle object per member; two goroutines of m1 share h1, one goroutine of m2 uses h2. *)
+(* This is also the shape of the repaired code (fixes/cluster-mutex-one-handle-per-name.diff:     *)
+(* cluster.Mutex(name) returns the member's one handle for the name, whoever asks).               *)
 ProcsA    == {"p1", "p2", "p3"}
 HandlesA  == {"h1", "h2"}
 MemOfA    == [h \in HandlesA |-> IF h = "h1" THEN "m1" ELSE "m2"]
